@@ -31,7 +31,7 @@ Proof. destruct e; vm_compute; reflexivity. Qed.
 Lemma class_of_some_iff e : (exists c, class_of e = Some c) <-> is_dae e = true.
 Proof.
   destruct e; simpl; split; intro H; try reflexivity; try discriminate;
-    try (destruct H as [c H]; discriminate); eexists; reflexivity.
+    try (destruct H as [? ?]; discriminate); eexists; reflexivity.
 Qed.
 
 (* ---------------------------------------------------------------- mask semantics *)
